@@ -358,6 +358,9 @@ class ExprRun:
                 prop = online_owner(txt)
                 key = re.sub(r"\d+", "N", txt.split(" n=")[0])
                 report(prop, "online:" + key.replace(" ", "_"), txt, pid, sc, lines, None)
+                if txt.startswith("M3 "):
+                    # memory obtained from the receiver's allocator and never returned to it is also C12's clause
+                    report("C12", "online:" + key.replace(" ", "_"), txt, pid, sc, lines, None)
         if not info["complete"]:
             return
         faulty = sc.get("throw", 0) > 0
@@ -435,6 +438,22 @@ class ExprRun:
                 report("C11", "trait:sends_done-false-but-done", O[0], pid, sc, lines, None)
             if pv["affine"] == "1" and otag != M.RCVR_TAG:
                 report("C11", "trait:scheduler-affine-violated", O[0], pid, sc, lines, None)
+        # via(S, sch) delivers on sch's context on every path (its completion sender schedule(sch) runs after S whatever S's
+        # outcome was); the only legitimate exception is a completion sender that could not be connected (injected throw in a
+        # leaf connect / allocation), which is reported from S's context
+        if spec.get("op") == "via" and O:
+            otag = int(O[0].split(" ")[3].split("=")[1])
+            tkind = tline[0].split(" ")[2] if tline else ""
+            oi = lines.index(O[0])
+            hops = [l.split(" ") for l in lines[:oi] if l.startswith("Lc %d " % spec["sched"])]
+            excused = tkind in ("leaf-connect", "alloc") or sc.get("rt")
+            if not hops and not excused:
+                report("C11", "context:via-completed-without-its-scheduler-hop", "via(..., scheduler %d): %s" % (spec["sched"], O[0]),
+                       pid, sc, lines, None)
+            elif hops and hops[-1][3] == "v" and otag != spec["sched"] and not excused:
+                # (a schedule() that completes with done/error itself - e.g. stop already requested - is not a hop)
+                report("C11", "context:via-completed-off-its-scheduler", "via(..., scheduler %d): %s" % (spec["sched"], O[0]),
+                       pid, sc, lines, None)
         # model comparison --------------------------------------------------
         if weak:
             self.stats["weak_mode"] += 1
@@ -480,7 +499,7 @@ class ExprRun:
                                                   ("L+", "D", "S", "Ls", "Lc", "F", "O")][:30]})
 
     # ------------------------------------------------------------------
-    def execute(self, verdict_by_prop, want_props, faults=False, fault_programs=None):
+    def execute(self, verdict_by_prop, want_props, faults=False, fault_programs=None, fault_scenarios=12):
         """run everything; verdict_by_prop: {prop: Verdict}"""
         rng = random.Random(self.seed * 7919 + 13)
         jobs = []
@@ -513,7 +532,7 @@ class ExprRun:
                 # single-fault enumeration on representative scenarios
                 flines = []
                 fscs = []
-                base = [i for i in range(min(len(scs), 12))]
+                base = [i for i in range(min(len(scs), fault_scenarios))]
                 sid = 100000
                 for i in base:
                     info = results.get(i + 1)
@@ -560,23 +579,27 @@ class ExprRun:
                             if s2 == sid:
                                 sc = sc2
                 if timed_out:
-                    key_o = "hang"
+                    hf = core.hang_summary(err)
+                    key_o = "hang" + (":" + ">".join(hf) if hf else "")
                     prop = "C01"
+                elif rc == 89 and "event log overflow" in err:
+                    key_o = "runaway:event-log-overflow"
+                    timed_out = True   # same class as a hang: the operation never settles
                 else:
                     ss = core.san_summary(err)
                     if ss:
                         key_o = ss[0] + ":" + ">".join(ss[1][:4])
                     else:
-                        m = re.search(r"#SIGNAL (\d+)", err)
-                        key_o = "crash:rc%s" % rc
+                        key_o = core.abort_summary(err, rc)
                     prop = "C02"
                     if "stop" in key_o.lower() and "C04" in verdict_by_prop and prop not in verdict_by_prop:
                         prop = "C04"
                 info = results.get(sid, {"lines": []}) if sid is not None else {"lines": []}
                 # a crash is reported to C02 (memory safety) and, when the dying frames are in the
                 # stop-token machinery, also to C04
-                for p in ("C02", "C04"):
-                    if p in verdict_by_prop and (p == "C02" or "stop" in key_o.lower()):
+                for p in ("C02", "C04", "C01"):
+                    if p in verdict_by_prop and (p == "C02" or (p == "C04" and "stop" in key_o.lower()) or
+                                                 (p == "C01" and timed_out)):
                         spec_ = spec
                         key = "%s:expr:%s:%s" % (p, root_class(spec_), key_o)
                         text = "program %d: %s\nscenario: %s\nvariant: %s seed: %d rc=%s\n\npartial log:\n%s\n\nstderr:\n%s\n" % (
